@@ -33,6 +33,8 @@ type c04Scenario struct {
 	Choices []int           `json:"choices"` // which permitted (type, offering) the provider launches
 	ZeroRes []string        `json:"zeroRes"` // resource the kubelet has not reported yet (per claim, "" = none)
 	Extra   []*corev1.Pod   `json:"extra"`   // pods that arrive between the passes
+	// TaintStyles: how the node's agent wrote the startup taints (per claim: "", value, timeAdded)
+	TaintStyles []string `json:"taintStyles,omitempty"`
 }
 
 func c04Knobs() gen.Knobs {
@@ -57,6 +59,7 @@ func drawC04(t *rapid.T) *c04Scenario {
 		s.Stages = append(s.Stages, rapid.SampledFrom(stages).Draw(t, "stage"))
 		s.Choices = append(s.Choices, rapid.IntRange(0, 11).Draw(t, "choice"))
 		s.ZeroRes = append(s.ZeroRes, rapid.SampledFrom([]string{"", "", "memory", "pods", gen.GPU, "absent:memory", "absent:" + gen.GPU, "absent:*", "absent:cpu"}).Draw(t, "zeroRes"))
+		s.TaintStyles = append(s.TaintStyles, rapid.SampledFrom([]string{"", "", "", "value", "timeAdded"}).Draw(t, "taintStyle"))
 	}
 	n := rapid.IntRange(0, 3).Draw(t, "nExtra")
 	for i := 0; i < n; i++ {
@@ -144,7 +147,11 @@ func execC04(s *c04Scenario, c *ev.Ctx) {
 		if len(zero) == 1 && strings.HasPrefix(zero[0], "absent:") {
 			absent, zero = []string{strings.TrimPrefix(zero[0], "absent:")}, nil
 		}
-		node := w.JoinNode(nc, sim.JoinOpts{Ready: false, ZeroResources: zero, AbsentResources: absent})
+		style := ""
+		if len(s.TaintStyles) > 0 {
+			style = s.TaintStyles[i%len(s.TaintStyles)]
+		}
+		node := w.JoinNode(nc, sim.JoinOpts{Ready: false, ZeroResources: zero, AbsentResources: absent, StartupTaintStyle: style})
 		if stage == sim.StageUnregistered {
 			continue
 		}
